@@ -90,7 +90,8 @@ func genC17a(t *rapid.T) c17aScenario {
 		// every location gets its own prefix so that a probe can address it
 		l.Prefixes = []string{fmt.Sprintf("/l%d", i)}
 		if rapid.Bool().Draw(t, "hosts") {
-			l.Hosts = []string{"c17.test"}
+			// host names are accepted in any case and compared as written
+			l.Hosts = []string{rapid.SampledFrom([]string{"c17.test", "c17.test", "C17.Test", "Api.C17.TEST"}).Draw(t, "hostName")}
 		}
 		c.Locations = append(c.Locations, l)
 	}
@@ -167,7 +168,11 @@ func execC17a(sc c17aScenario) *vstat.Outcome {
 			if loc == nil {
 				continue
 			}
-			r := do(c17aCl, reqSpec{Method: "GET", Addr: addr, Host: "c17.test", URI: loc.Prefixes[0] + "/probe"})
+			probeHost := "c17.test"
+			if len(loc.Hosts) > 0 {
+				probeHost = loc.Hosts[0]
+			}
+			r := do(c17aCl, reqSpec{Method: "GET", Addr: addr, Host: probeHost, URI: loc.Prefixes[0] + "/probe"})
 			probes++
 			if r.Err != "" {
 				out.Violate("C17", "transport", "probe of location %q through server %s: %s", ln, s.Addr, r.Err)
